@@ -96,7 +96,7 @@ func (ev *Eval) noteRange(t types.Type, term string) {
 	}
 	if _, _, ok := intInfo(t); !ok {
 		switch types.Unalias(t).Underlying().(type) {
-		case *types.Slice, *types.Map:
+		case *types.Slice, *types.Map, *types.Struct:
 		default:
 			return
 		}
@@ -355,7 +355,7 @@ func (ev *Eval) eval(e Expr) Val {
 		return sub.eval(x.Body)
 	case *EQuant:
 		sub := ev.sub()
-		var decls []string
+		var decls, typed []string
 		for i, v := range x.Vars {
 			srt := "Int"
 			var gt types.Type
@@ -370,6 +370,14 @@ func (ev *Eval) eval(e Expr) Val {
 			}
 			decls = append(decls, "("+n+" "+srt+")")
 			sub.bound[v] = sub.wrapSpec(n, srt, gt)
+			if gt != nil {
+				// a bound variable of a Go type ranges over well-typed values only (slice lengths >= 0,
+				// integers within their width): without this an assumed axiom such as
+				// "forall b []byte :: 0 <= f(b) <= 8*len(b)" is inconsistent at a negative-length sequence
+				if f := ev.s.rangeFact(gt, n); f != "" {
+					typed = append(typed, f)
+				}
+			}
 		}
 		var inner []string
 		if ev.pending != nil {
@@ -391,7 +399,11 @@ func (ev *Eval) eval(e Expr) Val {
 				*ev.pending = append(*ev.pending, f)
 			}
 		}
-		if len(prem) > 0 && !ev.assuming {
+		if ev.assuming {
+			prem = nil
+		}
+		prem = append(typed, prem...)
+		if len(prem) > 0 {
 			if x.Forall {
 				body = "(=> " + and(prem...) + " " + body + ")"
 			} else {
